@@ -104,7 +104,8 @@ class DepartureSpec(Spec):
             "stage x way x byte offset x second-departure once each with a seeded schedule.  Every run contains a "
             "departure (non-trivial); distinct = distinct event-log digest")
     expected_probes = ("client_closed_checked", "reconnect_checked", "refusal_checked", "write_fail",
-                       "victim_accepted", "victim_logger", "victim_paused", "victim_sub_all", "multi_ready_round")
+                       "victim_accepted", "victim_logger", "victim_paused", "victim_sub_all", "multi_ready_round",
+                       "pool_full_reuse")
     assumptions = ["the manager has had its first chance to notice (a failed write, or a select round after the "
                    "FIN/RST became visible) before reuse is attempted", "the TCP model of sim/net.py"]
 
@@ -134,7 +135,7 @@ class ClientSubSpec(Spec):
             "distinct (subscribed, paused) client states visited")
     expected_probes = ("op_subscribe", "op_pause", "op_resume", "op_sub_ctx", "op_pause_ctx", "refused_ops",
                        "ctx_overlaps_subscribed", "ctx_overlaps_paused", "op_while_sub_all", "op_reconnect",
-                       "reconnect_after_loss", "twin_instance")
+                       "reconnect_after_loss", "twin_instance", "racing_probes_checked", "racing_probe_overtook_request")
     components = {"real": REAL_MANAGER + REAL_CLIENT, "stub": STUB_NET}
     assumptions = ["model-free: client and manager are compared with each other, the statement's own criterion",
                    "all connections writable during probes (a drop would be a legitimate non-delivery)"]
